@@ -4,6 +4,7 @@ import (
 	"fmt"
 	"go/token"
 	"go/types"
+	"math"
 	"math/bits"
 	"os"
 	"strconv"
@@ -420,6 +421,21 @@ func init() {
 		},
 
 		// ---- math/bits (pure Go bodies exist, but intrinsics give compact terms)
+		// ---- float bit patterns: concrete floats only (a symbolic float is a FloatInt and has no bit-level model)
+		"math.Float64bits": func(in *Interp, c *frame, fn *ssa.Function, a []Value) Value {
+			f, ok := a[0].(float64)
+			if !ok {
+				panic(unsupported("math.Float64bits of a symbolic float"))
+			}
+			return in.tt.Const(64, math.Float64bits(f))
+		},
+		"math.Float64frombits": func(in *Interp, c *frame, fn *ssa.Function, a []Value) Value {
+			t := a[0].(*Term)
+			if !t.IsConst() {
+				panic(unsupported("math.Float64frombits of a symbolic word"))
+			}
+			return math.Float64frombits(t.val)
+		},
 		"math/bits.Len64": func(in *Interp, c *frame, fn *ssa.Function, a []Value) Value {
 			return in.bitsLen(a[0].(*Term))
 		},
